@@ -632,11 +632,20 @@ pub fn interface_program(r: &mut Rng, collide: bool) -> IfaceProgram {
     src.push_str(&format!("party {sender};\nparty {receiver};\n\n"));
     let ntx = 1 + r.below(3) as usize;
     let mut txs = vec![];
-    for (k, name) in ["Pay", "Refund", "Sweep"].iter().take(ntx).enumerate() {
+    // transaction names that differ only in case are different transactions
+    let names: Vec<&str> = match r.below(4) {
+        0 => vec!["Pay", "pay", "PAY"],
+        1 => vec!["Pay", "Refund", "refund"],
+        _ => vec!["Pay", "Refund", "Sweep"],
+    };
+    for (k, name) in names.iter().take(ntx).enumerate() {
         let qty = cased(r, "quantity");
         let extra = cased(r, "bonus");
         let unused = cased(r, "unusedparam");
-        let mut params = vec![qty.clone(), extra.clone()];
+        // one parameter that only this transaction has (and uses), so that no two transactions of a program
+        // require the same set
+        let own = cased(r, &format!("only{k}"));
+        let mut params = vec![qty.clone(), extra.clone(), own.clone()];
         if r.chance(1, 2) {
             params.push(unused.clone());
         }
@@ -649,7 +658,7 @@ pub fn interface_program(r: &mut Rng, collide: bool) -> IfaceProgram {
         // "an earlier one does, the last one does not" is a common shape
         let reads_env = with_env && (if k == 0 { r.chance(3, 4) } else { r.chance(1, 2) });
         let plist = params.iter().map(|p| format!("{p}: Int")).collect::<Vec<_>>().join(", ");
-        let amount = if reads_env { format!("Ada({qty}) + Ada({extra}) + Ada({envv})") } else { format!("Ada({qty}) + Ada({extra})") };
+        let amount = if reads_env { format!("Ada({qty}) + Ada({extra}) + Ada({own}) + Ada({envv})") } else { format!("Ada({qty}) + Ada({extra}) + Ada({own})") };
         let mint = if reads_env {
             format!("    mint {{\n        amount: AnyAsset({envb}, \"TK\", 1),\n        redeemer: (),\n    }}\n")
         } else {
@@ -658,7 +667,7 @@ pub fn interface_program(r: &mut Rng, collide: bool) -> IfaceProgram {
         src.push_str(&format!(
             "tx {name}({plist}) {{\n    input source {{\n        from: {sender},\n        min_amount: {amount} + fees,\n    }}\n{mint}    output {{\n        to: {receiver},\n        amount: {amount},\n    }}\n    output {{\n        to: {sender},\n        amount: source - {amount} - fees,\n    }}\n}}\n\n"
         ));
-        let mut used = vec![qty, extra, sender.clone(), receiver.clone()];
+        let mut used = vec![qty, extra, own, sender.clone(), receiver.clone()];
         if reads_env {
             used.push(envv.clone());
             used.push(envb.clone());
